@@ -264,30 +264,31 @@ ALL = [f"C{i:02d}" for i in range(1, 21)]
 
 # Behaviour added after the three waves of independently seeded changes (DESIGN.md 10.6); appended to the level text.
 ADDED = {
+    "C12": "Also: add_verified_peer with an observer that removes the peer again from inside on_peer_added.",
     "C01": "Additionally the addresses of all verified peers of the receiver are compared around every non-authentic delivery. Histories in which the churn has just dropped the sender's verified peer before the non-authentic datagram arrives.",
     "C03": "Also: the statistics endpoint listening in every second case; correctly ENCRYPTED cells (sender holds the session keys) "
            "with empty / one-byte / short messages; slightly bumped length fields; a nested payload must end where its length prefix "
            "says; a 'codec' family hands corrupted genuine encodings of all 58 shipped Serializable classes to unpack_serializable(_list) "
            "at offset 0 and behind a pad. Late datagrams from the old and new address of a peer that roamed and was then dropped.",
     "C04": "Also: IPv8-shaped and own-prefix payloads over the e2e circuit, a dishonest rendezvous point reflecting relayed cells, the exit "
-           "giving its side up while the outside host still answers during the removal grace period. Destinations given by host name (several packets inside the exit's resolver at once); nothing leaves the exit more often than it was sent.",
+           "giving its side up while the outside host still answers during the removal grace period. Destinations given by host name (several packets inside the exit's resolver at once); nothing leaves the exit more often than it was sent. A second port under the same host name; a cell copy with one prefix bit flipped must cause no traffic.",
     "C05": "Also: created answers re-labelled with a live exit id, genuine signed overlay messages replayed from the adversary's address "
-           "(neighbour addresses of backward entries compared), answers to plaintext creates made up by an off-path forger. A forged destroy for the surviving direction of a half-expired relay pair; a copy of a fresh circuit's first data cell reaching the exit first from the adversary's address.",
+           "(neighbour addresses of backward entries compared), answers to plaintext creates made up by an off-path forger. A forged destroy for the surviving direction of a half-expired relay pair; a copy of a fresh circuit's first data cell reaching the exit first from the adversary's address. A third party's create racing with the genuine create for the same new id; a create for a new id at a node that is at its joined-circuit limit after a silent period.",
     "C07": "Also: exits whose flags the sender never learnt and a BitTorrent-only exit judged by its real flags, a second TunnelEndpoint "
            "of the process with the same overlay id, and: what a circuit is given is exactly what the overlay handed to its endpoint. "
-           "Thorough enumerates depth 6 over 12 symbols completely and samples lengths 7..10. A send directly followed by giving up every circuit while a held-back backlog exists.",
-    "C08": "Also: extends to a required exit the relay never met (the relay waits in a simulated slow DHT peer lookup) under duplication. Circuits built in one build_tunnels round with answers re-labelled (id + identifier) as answers to another outstanding create: the entry the circuit's route leads to must hold the accepted keys.",
+           "Thorough enumerates depth 6 over 12 symbols completely and samples lengths 7..10. A send directly followed by giving up every circuit while a held-back backlog exists. Bursts to 150 destinations while held back: one send() hands a circuit at most its own packet + 100.",
+    "C08": "Also: extends to a required exit the relay never met (the relay waits in a simulated slow DHT peer lookup) under duplication. Circuits built in one build_tunnels round with answers re-labelled (id + identifier) as answers to another outstanding create: the entry the circuit's route leads to must hold the accepted keys. A correctly encrypted candidate list led by an unparsable key; a required exit known to the originator under a stale address; unstable_timeout as a per-run knob.",
     "C09": "Also: the circuit's first data packet chased by the teardown (gaps 0..50 ms, remove_tunnel_delay 0/5, socket opening yields "
            "like asyncio). Key answers altered in flight with nobody tearing the circuit down (the retry timer has to give it up).",
     "C10": "Also: caches with two managed futures and partial answers completed by the user. Requests outstanding across the task manager's periodic age check (900 s, 1500 s) and wall-clock steps.",
     "C11": "Also: TaskManager tasks with asynchronous clean-up, one ipv8_service case per default overlay, the broadcast bootstrapper, a "
-           "peer sending create + data to a tunnel overlay while it is being unloaded. A slow attestation application with repeated requests (several suspended handlers of one sender), and the service with a walker interval that makes its ticker pause between strategies.",
-    "C13": "Also: candidates known to the introducer from an earlier life on another port, NATs handing out the same private /24. The first round's puncture-requests lost, the walker giving the address up and the introducer naming the peer again.",
+           "peer sending create + data to a tunnel overlay while it is being unloaded. A slow attestation application with repeated requests (several suspended handlers of one sender), and the service with a walker interval that makes its ticker pause between strategies. The multiplexed node behind a TunnelEndpoint; TaskManager histories with wall-clock steps and long-running tasks.",
+    "C13": "Also: candidates known to the introducer from an earlier life on another port, NATs handing out the same private /24. The first round's puncture-requests lost, the walker giving the address up and the introducer naming the peer again. Candidates whose peer table holds exactly max_peers.",
     "C16": "Also: one Token object offered to the trees of two identities. An ECDSA owner key signing one statement twice (two tokens); content attached to an element must survive later arrivals.",
     "C17": "Also: two pseudonyms of one user on one IdentityManager.",
-    "C06": "Also: EMFILE when the outside sockets are opened, followed by a correctly keyed cell from another address (it must not reopen them).",
+    "C06": "Also: EMFILE when the outside sockets are opened, followed by a correctly keyed cell from another address (it must not reopen them). Exit flags reassigned at run time (packets judged by the flags then in force); circuits idle beyond unstable_timeout before any data.",
     "C14": "Also (in situ): nodes that come back under another IP address with the same key.",
-    "C19": "Also: the batching API (with database:), a 130-token chain, and set iteration order at reload chosen by the simulator. A stored attestation delivered again (duplicate hash) at every crash point.",
+    "C19": "Also: the batching API (with database:), a 130-token chain, and set iteration order at reload chosen by the simulator. A stored attestation delivered again (duplicate hash) at every crash point. One commit() of the workload failing like a full disk (the failed insert must not count as made); a credential refused by the tree rebuilt from the database is a violation.",
 }
 
 
